@@ -552,6 +552,9 @@ impl NamedFile {
                 if let Some(range) = HttpRange::parse(ranges_header, length)
                     .ok()
                     .and_then(|ranges| ranges.first().copied())
+                    // an empty range (suffix range on an empty file) selects nothing; it cannot
+                    // be described by a Content-Range and is not satisfiable
+                    .filter(|range| range.length > 0)
                 {
                     ranged_req = true;
                     length = range.length;
